@@ -133,7 +133,7 @@ struct WlanEngine : Engine {
                 int64_t t = t0 - 3000 + (int64_t)cfg.below(600000); size_t plen = payload_len(); Bytes payload = wl.bytes(plen); bool ip_payload = cfg.chance(0.4); if (ip_payload) { std::string dsc; payload = gen::ip_random(wl, false, dsc); } bool from_ap = cfg.chance(0.5), qos = cfg.chance(0.4); uint8_t tid = (uint8_t)cfg.below(16); bool retry = cfg.chance(0.1), mf = cfg.chance(0.05); uint8_t frag = mf ? (uint8_t)cfg.below(4) : 0;
                 int kindsel = (int)cfg.below(20); uint16_t et = ip_payload ? 0x0800 : (cfg.chance(0.5) ? 0x88b5 : 0x9000); uint64_t fseed = cfg.next();   /* unknown ethertypes keep the payload opaque */
                 w.q.after(t, [=, &w]() {
-                    Rng fr(fseed); Bss& b = s->b; DataSpec d; d.from_ds = from_ap; d.to_ds = !from_ap; d.qos = qos; d.tid = tid; d.retry = retry; d.more_frag = mf; d.frag = frag; d.seq = from_ap ? s->seq_ap++ : s->seq_sta++;
+                    Rng fr(fseed); Bss& b = s->b; DataSpec d; d.from_ds = from_ap; d.to_ds = !from_ap; d.qos = qos; d.tid = tid; d.retry = retry; d.more_frag = mf; d.frag = frag; d.cf = (uint8_t)(!qos && (fseed >> 40) % 4 == 0 ? 1 + (fseed >> 44) % 3 : 0);   /* the contention-free data subtypes now and then (non-QoS ones: libtins does not parse QoS Data+CF-* as QoS frames at all - noted, not judged) */ d.seq = from_ap ? s->seq_ap++ : s->seq_sta++;
                     Mac peer = Mac::of(0x77); Mac da, sa; if (from_ap) { d.a1 = s->mac; d.a2 = b.bssid; d.a3 = peer; da = s->mac; sa = peer; } else { d.a1 = b.bssid; d.a2 = s->mac; d.a3 = peer; da = peer; sa = s->mac; }
                     Bytes plain = llc_snap(et, payload);
                     if (b.cipher <= WEP104) {
